@@ -34,9 +34,10 @@ def handle (j : Json) : Except String Json := do
     return outcome memToJson (writeDicts directed nodes edges nn en)
   | "nxWrite" =>
     let g ← nxOfJson (← j.getObjVal? "g")
+    let ax ← axesOf j
     let r := nxWrite g
     match r with
-    | .ok m => return Json.mkObj ([("mem", outcome memToJson r)] ++ constructs m none false)
+    | .ok m => return Json.mkObj ([("mem", outcome memToJson r)] ++ constructs m ax ax.isSome)
     | .error _ => return Json.mkObj [("mem", outcome memToJson r)]
   | "rxWrite" =>
     let g ← rxOfJson (← j.getObjVal? "g")
@@ -49,10 +50,10 @@ def handle (j : Json) : Except String Json := do
           return (← getNat q[0]!, ← getInt? q[1]!)
         pure (some l)
       | .error _ => pure none
+    let ax ← axesOf j
     let r := rxWrite g d
-    -- what RxBackend.write hands to write_dicts
     match r with
-    | .ok m => return Json.mkObj ([("mem", outcome memToJson r)] ++ constructs m none false)
+    | .ok m => return Json.mkObj ([("mem", outcome memToJson r)] ++ constructs m ax ax.isSome)
     | .error _ => return Json.mkObj [("mem", outcome memToJson r)]
   | "sgWrite" =>
     let g ← sgOfJson (← j.getObjVal? "g")
